@@ -15,7 +15,7 @@ func traced(name string, body func(t *Ty, a []Arg) *V) func(*Evaluator, *Ty, []A
 				s += Show(x.V) + ":" + x.V.T.Canon()
 			}
 		}
-		ev.Trace = append(ev.Trace, TraceEntry{name, s})
+		ev.Emit(TraceEntry{name, s})
 		// thunks forced by the body run nested evaluations that append to
 		// the same evaluator (reference side) or to the observed trace
 		// (real side, through the nested host calls)
